@@ -70,8 +70,10 @@ def benchmark_random(backtest, random_strategy, nsim=100):
 
     # create and run random backtests
     for i in tqdm(range(nsim)):
-        random_strategy.name = "random_%s" % i
-        rbt = bt.Backtest(random_strategy, data)
+        # name a copy: the caller's template is left as it was passed in
+        rs = deepcopy(random_strategy)
+        rs.name = "random_%s" % i
+        rbt = bt.Backtest(rs, data)
         rbt.run()
 
         bts.append(rbt)
